@@ -73,6 +73,7 @@ def jobs(tier):
         J.append(_cfg('condfresh-adaptive-N1', 1, 2, 3, 'adaptive', 'fresh',
                       tier))
         J.append(_cfg('condmixed-N2-M2', 2, 2, 3, 'const', 'mixed', tier))
+        J.append(_cfg('g0-condconst-N2', 2, 2, 3, 'const', 'const', tier, g0=3))
         # off-grid run lengths with a precision: concrete dyadic intervals
         for N in (0, 1, 2):
             J.append(_cfg('offgrid-p0-N%d' % N, N, 2, 3, 'const', 'none', tier,
